@@ -10,7 +10,8 @@ def claim(pid, technique, text, note, level="exploration", design="DESIGN.md sec
 
 claim("C07", "generated-input search: round-trip + exact-value oracle (CPython decimal), enumerated exponent grid",
       "Exploration: every exponent class x coefficient length x sign on a grid plus random decimal128 triples, FEEL literals, xsd "
-      "input and arithmetic results are printed and the text is checked against plain/JSON grammars, exact value and read-back.",
+      "input and arithmetic results are printed and the text is checked against plain/JSON grammars, exact value and read-back. Integers "
+      "next to the limits of the machine integers and typed texts whose written exponent lies outside the format are included.",
       "Trusts CPython Decimal(text) exactness and the C library's own scientific string as the name of the stored value.")
 
 claim("C01", "generated-input search: typed grammar-directed expression generator vs a reference FEEL evaluator (differential) + scope-shape metamorphic relation",
@@ -44,13 +45,15 @@ claim("C16", "exhaustive enumeration of the depth-1 type universe (1261 types: a
       "Exploration with exhaustive sub-spaces: every ordered pair of the 1261-type universe is compared with reference relations written from "
       "the statement and every ordered triple is checked for transitivity (M.M <= M on the SUT's own matrices); depth-2 types, coercion "
       "(value itself / wrap / unwrap / null, conforms-or-null, idempotence), parameter coercion through FEEL invocations and result coercion "
-      "of functions with a declared result type (0..2 parameters, positional and named) are sampled.",
+      "of functions with a declared result type (0..2 parameters, positional and named) are sampled. Part model-functions: function "
+      "values made by models (typed knowledge models with literal, decision-table and boxed-context logic, decision services).",
       "Trusts the reference relations in pbt/oracles/types_ref.py and numpy's integer matrix product; depth 2 is sampled, not exhaustive.")
 
 claim("C17", "state-space enumeration over observed workspace snapshots (all histories up to length 6) + generated long histories with shrinking, against a reference workspace model",
       "Exploration with an exhaustive part: breadth-first over every distinct reachable state (hook snapshot + evaluate answers + trial "
       "deploy), every operation applied to every state within 6 steps, equal-snapshot histories checked to behave equally, plus random "
-      "histories of up to 60 operations; invariants and the reference model are compared after every step.",
+      "histories of up to 60 operations; invariants and the reference model are compared after every step. Parts http / http-concurrent: "
+      "the same histories through the service endpoints, and evaluations while other clients send requests that modify nothing.",
       "Uses the read-only hook Workspace::verif_snapshot (cfg dmntk_verif). The statement does not say which models a partly matching remove "
       "designates: either consistent reading is accepted.")
 
@@ -69,7 +72,8 @@ claim("C14", "enumerated literal spaces (every whole-minute offset, every zone i
       "Exploration with exhaustive sub-spaces (offsets by whole minutes, zone identifiers, calendar validity grid): every literal goes "
       "through date()/time()/date and time()/duration(), @-literals and the xsd constructors; the value's components, its text and the "
       "re-read value are compared with a reference model; corrupted literals must be null. Part zone-twins: a zoned literal equals the same "
-      "instant written in UTC and with the numeric offset, in both operand orders, also within hours of a switch.",
+      "instant written in UTC and with the numeric offset, in both operand orders, also within hours of a switch. Named zones also stand "
+      "next to years the zone rules say nothing about and at skipped local times (valid literals that print back).",
       "Trusts pbt/oracles/temporal_cal.py (self-tested against CPython datetime inside 1..9999) and the intersection of the zone databases of "
       "chrono-tz 0.6.3 and system tzdata. Forms on which XSD/FEEL are silent are labelled unspecified and only round-tripped.")
 
@@ -83,7 +87,8 @@ claim("C15", "enumerated calendar (every day of the sampled/all years -1..2400, 
 claim("C08", "generated argument tuples per built-in (39 functions) + exhaustive position x length grids and arity sweeps, differential against independent reference implementations; named = positional metamorphic relation",
       "Exploration: every built-in of the statement is evaluated on thousands of generated tuples (strings over ASCII/BMP/supplementary "
       "characters, lists 0..8 with duplicates/nulls/nesting, every position and length around the boundaries, every arity) positionally "
-      "and with named parameters; results compared with a reference implementation written from DMN 1.3 tables 72-76.",
+      "and with named parameters; results compared with a reference implementation written from DMN 1.3 tables 72-76. Where the text is "
+      "not decisive, the values that NO reading allows are still refused (all/any with a deciding item among the arguments).",
       "Trusts pbt/oracles/bifs_ref.py (own regex matcher for the common sub-grammar, cross-checked against CPython re). Argument classes "
       "the specification does not decide are labelled unspecified and only checked for totality and named == positional.")
 
@@ -92,19 +97,23 @@ claim("C02", "boundary-alphabet grid (every operation x every tuple of a 72-valu
       "thousands of constructed tuples, through the FeelNumber API and through FEEL; correctly rounded results must match digit for digit, "
       "exp/log/inexact powers within 2 ulp, undefined or out-of-range results must be null, Infinity/NaN are never accepted. Constructed "
       "shapes include integer powers beyond the range edges and operands built from base-10^9 units drawn from a dictionary harvested from "
-      "the numeric constants of the C sources (dividend = prefix of the divisor).",
+      "the numeric constants of the C sources (dividend = prefix of the divisor), coefficients built from the format's 3-digit groups and "
+      "next to machine-integer limits, exp at 2^k times the arguments where the result leaves the range.",
       "Trusts libmpdec (CPython decimal) as an independent decimal128 implementation and fractions.Fraction for exact references.")
 
 claim("C09", "exhaustive enumeration of ordered pairs (48x48) and per-kind triples of a value alphabet + generated pairs/triples; algebraic laws between observed results (no external oracle)",
       "Exploration with exhaustive sub-spaces: truth tables of and/or, symmetry of =, != as negation, mirror images of the ordering "
-      "operators for all values; trichotomy, <= as (< or =), between/in-range/conjunction agreement for numbers, strings and dates.",
+      "operators for all values; trichotomy, <= as (< or =), between/in-range/conjunction agreement for numbers, strings and dates. "
+      "Generated structured values (lists and contexts nested to depth 2 over leaves of every kind, the second value mostly a near copy "
+      "of the first) under the universal laws.",
       "Laws only relate results the SUT itself returned; nothing is asserted for kinds the statement does not call ordered.")
 
 claim("C05", "generated-input search over five sources (mutations/truncations of every FEEL text harvested from the repository's tests, arbitrary Unicode, argument sweeps of all built-ins, nesting ramps, entry points x parsing scopes) on both builds + coverage-guided libFuzzer campaign (thorough); validity predicate oracle",
       "Exploration: hundreds of thousands of requests per run on the overflow-checked and the release build; a panic record, process "
       "death or a confirmed hang is a violation; the thorough tier adds a libFuzzer campaign on the feel_any target seeded with the "
       "harvested texts. Part local-zone runs driver processes whose TZ is a zone with daylight-saving time (zone-less values take the "
-      "process's local offset).",
+      "process's local offset). Text arguments of built-ins are related (the second occurs in the first, sliced between 1..4-byte "
+      "characters); iteration ranges of astronomical length stand next to empty domains.",
       "A timeout counts only after three isolated re-runs with a 10x CPU-time budget (else exit 2). Open findings are matched by panic "
       "file + statement text, so line shifts do not create false alarms.")
 
@@ -125,14 +134,16 @@ claim("C19", "generated drawings (renderer for both orientations and all optiona
 claim("C04", "generated acyclic requirement graphs (forced shape classes) evaluated against a reference DRG evaluator (differential) + metamorphic relation: entries outside the requirement closure do not change the result",
       "Exploration: thousands of generated models (inputs, decisions of every boxed kind, knowledge models, decision services) x every "
       "invocable x 3 inputs compared with a topological reference evaluation; the same invocation with extra unrelated entries must be "
-      "identical. Services and decisions with typed variables, boxed invocations with an omitted binding.",
+      "identical. Services and decisions with typed variables, boxed invocations with an omitted binding, decision tables whose default "
+      "output entry names required elements.",
       "Trusts pbt/oracles/drg_ref.py + the reference FEEL evaluator. Inputs that shadow a required decision/BKM are generated and labelled, "
       "not asserted (the TCK demands override for service input decisions).")
 
 claim("C11", "generated item-definition trees (depth <= 3) with conforming values and values violating exactly one position; reference conformance/coercion from the statement",
       "Exploration: tens of thousands of item-definition trees used as input and output types; echo decisions show what reached the logic; "
       "typed output variables of decisions, knowledge models (invoked directly, by boxed invocation and by literal call) and decision "
-      "services (one and several output decisions) show the coercion.",
+      "services (one and several output decisions) show the coercion; the knowledge models' logic is a literal expression, a decision "
+      "table or a boxed context; built-in type names inside <typeRef> elements are also written padded.",
       "Trusts pbt/oracles/itemdef_ref.py (+ C16's reference coercion). Extra context entries, allowed values on referencing definitions and "
       "on outputs are labelled and not asserted.")
 
@@ -141,7 +152,7 @@ claim("C12", "fault enumeration: every single structural fault (18 fault classes
       "generated models completely (per-class counts in the evidence), the thorough tier all single faults of all files; every probe "
       "parses, builds and evaluates every invocable with an empty, a typical and a wrong-typed input; a panic, a confirmed process "
       "death or a confirmed hang is a violation. Part graph-shape loads valid models with long chains and wide lattices of requirements / "
-      "type references.",
+      "type references, and every requirement cycle of up to three elements through every kind of edge with logic that follows the cycle.",
       "A death is confirmed alone in a fresh driver, a hang by 3 isolated re-runs (else exit 2). Panic signatures are keyed on crate path, "
       "enclosing function and statement text so that line shifts do not create false alarms.",
       level="fault_enumeration")
@@ -150,7 +161,8 @@ claim("C18", "generated request histories against the real service (definitions 
       "Exploration: thousands of request sequences against a service process started from the working tree; every body must be one "
       "well-formed JSON document with data or errors, data must decode to the value the same evaluation yields in process, typed TCK "
       "values must round-trip, the workspace must follow the reference model, and after every malformed request the next valid one "
-      "must be answered correctly.",
+      "must be answered correctly. Evaluation names that decorate a stored name (extension, slash, case, padding) are tried through "
+      "both evaluation endpoints after every history; null is sent in every spelling the TCK format has.",
       "Assumes the evaluated value is the one the same evaluation yields in process (driver probe). A request without an answer is "
       "replayed on a fresh server before it counts.")
 
